@@ -75,6 +75,7 @@ type c01state struct {
 	handled []string // tags seen by call handlers
 	pushed  []string // tags seen by push handlers
 	who     string
+	ctl     bool // handlers are methods of struct controllers
 }
 
 // see runs the shared handler-side oracle: body tag and metadata tag agree, and neither changes while the handler runs.
@@ -111,7 +112,34 @@ func padFor(tag string) string {
 	return strings.Repeat(tag[len(tag)-1:], n)
 }
 
+// Struct controllers: the router instantiates the receiver per invocation (from a pool) and points its embedded
+// context at the running request. The handlers reach the scenario state through a package variable.
+var c01CtlState *c01state
+
+type C01Ctl struct{ erpc.CallCtx }
+
+func (c *C01Ctl) Echo(arg *Msg) (*Msg, *erpc.Status) {
+	s := c01CtlState
+	t, pd := s.see("call", arg, c.PeekMeta, c.ServiceMethod)
+	s.handled = append(s.handled, t)
+	c.SetMeta(c01TagKey, t)
+	return &Msg{Tag: t, Pad: "r:" + pd}, nil
+}
+
+type C01PushCtl struct{ erpc.PushCtx }
+
+func (c *C01PushCtl) Note(arg *Msg) *erpc.Status {
+	s := c01CtlState
+	t, _ := s.see("push", arg, c.PeekMeta, c.ServiceMethod)
+	s.pushed = append(s.pushed, t)
+	return nil
+}
+
 func (s *c01state) register(p erpc.Peer) (call, push string) {
+	if s.ctl {
+		c01CtlState = s
+		return p.RouteCall(new(C01Ctl))[0], p.RoutePush(new(C01PushCtl))[0]
+	}
 	switch s.bk.codec + ":" + fmt.Sprintf("%T", s.bk.newRes()) {
 	case "json:*scen.Msg", "xml:*scen.Msg", "form:*scen.Msg":
 		call = p.RouteCallFunc(func(ctx erpc.CallCtx, arg *Msg) (*Msg, *erpc.Status) {
@@ -194,11 +222,12 @@ func c01(p Params) func() {
 	shape := p.Get("shape", "S1")
 	k := p.Int("k", 2)
 	op := p.Get("op", "call")
+	ctl := p.Get("ctl", "0") == "1" // server handlers registered as struct controllers (json-like bodies only)
 	return func() {
 		begin()
 		bk := bodyFor(body)
 		pf := world.Proto(proto)
-		srvS := &c01state{bk: bk, who: "server"}
+		srvS := &c01state{bk: bk, who: "server", ctl: ctl}
 		cliS := &c01state{bk: bk, who: "client"}
 		srv := world.NewPeer(bk.codec)
 		cli := world.NewPeer(bk.codec)
